@@ -321,7 +321,7 @@ fn judge_list(c: &ListCase, cls: &mut Classifier) -> Verdict {
 }
 
 pub fn run(ctx: &mut Ctx) {
-    ctx.rule = "public API: transactions of all shapes whose calldata has every length 0..=1100 (for length 1 every byte value), lengths 65534..65538 (and 2^24-1..2^24+1 in thorough), every integer byte width 0..=32 x top byte {01,7f,80,ff} in every numeric field, access lists of 0..8 entries x 0..8 slots and entries with ~1986 slots (list payloads around 55/56, 255/256, 65535/65536), recipient present/absent; each is signed and must strictly decode (canonical-only decoder) to the original values, equal the reference encoder byte for byte, and no two different records may share an encoding. With the verif-hooks re-export: len() for every length below 2^21 (2^26 thorough), 2^k-1,2^k,2^k+1 up to 2^63 and random 64-bit lengths, both offsets; bytes() for every length 0..=1100 and all singletons; uint() for every width x boundary pattern; list()/iter() over item multisets on each payload boundary. Non-trivial: payload length not one of the pinned 56/1024 examples; distinct by recipe.".into();
+    ctx.rule = "public API: transactions of all shapes whose calldata has every length 0..=1100 (for length 1 every byte value), lengths 65534..65538 and 2^24-1..2^24+1, every integer byte width 0..=32 x top byte {01,7f,80,ff} in every numeric field, access lists of 0..8 entries x 0..8 slots and entries with ~1986 slots (list payloads around 55/56, 255/256, 65535/65536), recipient present/absent; each is signed and must strictly decode (canonical-only decoder) to the original values, equal the reference encoder byte for byte, and no two different records may share an encoding. With the verif-hooks re-export: len() for every length below 2^21 (2^26 thorough), 2^k-1,2^k,2^k+1 up to 2^63 and random 64-bit lengths, both offsets; bytes() for every length 0..=1100 and all singletons; uint() for every width x boundary pattern; list()/iter() over item multisets on each payload boundary. Non-trivial: payload length not one of the pinned 56/1024 examples; distinct by recipe.".into();
     ctx.assumptions = vec!["the strict decoder is the oracle for canonicity; it is unit-tested in the harness".into()];
     ctx.replay_known_and_regressions(&replay);
     *SEEN.lock().unwrap() = Some(HashMap::new());
@@ -347,9 +347,12 @@ pub fn run(ctx: &mut Ctx) {
         recipes.push(base(0, len, len as u64));
         recipes.push(base(3, len, len as u64));
     }
-    if t == crate::engine::Tier::Thorough {
-        for len in [(1usize << 24) - 1, 1 << 24, (1 << 24) + 1] {
-            recipes.push(base(0, len, len as u64));
+    // around 2^24 (16 MiB calldata): the three boundary lengths in every tier, other shapes in thorough
+    for len in [(1usize << 24) - 1, 1 << 24, (1 << 24) + 1] {
+        recipes.push(base(0, len, len as u64));
+        if t == crate::engine::Tier::Thorough {
+            recipes.push(base(3, len, len as u64 + 1));
+            recipes.push(base(2, len - 40, len as u64 + 2));
         }
     }
     for idx in 0..6u8 {
@@ -470,6 +473,7 @@ pub fn run(ctx: &mut Ctx) {
     ctx.floor_abs("data-single", 256);
     ctx.floor_abs("data-long2", 800);
     ctx.floor_abs("data-long3", 5);
+    ctx.floor_abs("data-long4", 2);
     ctx.floor_abs("int-width-32", 10);
     ctx.floor_abs("int-width-0", 10);
     ctx.floor_abs("access-list", 100);
